@@ -80,6 +80,9 @@ def execute(beh):
             eq = Equation('lhs', 'desc', rhs=())
         elif st['kind'] == 'parsed':
             eq = Equation('lhs', 'desc', rhs=st['lead'])
+        elif st['kind'] == 'assign':
+            # the one-string form (also reached through Sector.AddVariableFromEquation): 'lhs = rhs # description'
+            eq = Equation('lhs = ' + st['lead'] + ' # note: a=1 # and more')
         else:
             eq = Equation('lhs', 'desc', [Term(st['lead'], is_blob=True)])
         ev.update(observe(eq))
